@@ -235,3 +235,17 @@ func (w *World) isGenerated(fn *ssa.Function) bool {
 	f := w.File(fn.Pos())
 	return strings.HasSuffix(f, ".pb.go") || strings.HasSuffix(f, ".pb.gw.go") || strings.HasSuffix(f, ".pulsar.go")
 }
+
+// TypesPkg returns the type-checked package with the given import path if some loaded
+// package imports it (dependencies are available through export data).
+func (w *World) TypesPkg(path string) *types.Package {
+	if p := w.ByPath[path]; p != nil {
+		return p.Types
+	}
+	for _, p := range w.ByPath {
+		if ip := p.Imports[path]; ip != nil && ip.Types != nil {
+			return ip.Types
+		}
+	}
+	return nil
+}
